@@ -12,12 +12,35 @@ import (
 
 // F0 re-checks the code-base facts the path arguments rely on (DESIGN 2): no
 // goroutines, channels, select, recover, unsafe or reflection in library
-// packages; defer only for Close().  A failure makes every check UNDECIDED.
+// packages; defer only for Close().  It runs after the property's rules and
+// covers the library functions those rules depend on: everything reachable in
+// the call graph from the functions the rules anchored on (plus their
+// closures).  A failure there makes the check UNDECIDED; a defer in code no
+// rule of this property looks at does not.
 func F0(e *Env) {
 	bad := 0
 	nf := 0
+	var scope map[*ssa.Function]bool
+	if anchors := e.P.Looked(); len(anchors) > 0 {
+		scope = e.P.Reachable(e.P.VTA(), anchors...)
+		for _, a := range anchors {
+			scope[a] = true
+		}
+		for changed := true; changed; {
+			changed = false
+			for _, fn := range e.P.Funcs {
+				if !scope[fn] && fn.Parent() != nil && scope[fn.Parent()] {
+					scope[fn] = true
+					changed = true
+				}
+			}
+		}
+	}
 	for _, fn := range e.P.Funcs {
 		if !e.P.IsLibrary(fn) {
+			continue
+		}
+		if scope != nil && !scope[fn] {
 			continue
 		}
 		nf++
@@ -62,7 +85,7 @@ func F0(e *Env) {
 			}
 		}
 	}
-	e.R.Counts["library_functions"] = nf
+	e.R.Counts["library_functions_in_scope"] = nf
 	if bad == 0 {
 		e.R.OK("F0", "library-code-facts", "-", "no go/select/channel/recover/unsafe/reflect, defer only for Close, in library functions").NonTrivial = false
 	}
